@@ -1,6 +1,6 @@
 (* PV.C19.Examples — non-vacuity: concrete non-trivial instances of the hypotheses / guards of the theorems. *)
 From Coq Require Import QArith ZArith List Bool PArith Arith Lia Lqa.
-From PV Require Import Base.PyData Base.Expr Base.Interp C19.Model C19.Spec C19.Penalty C19.Summary C19.Categorize C19.Refuted.
+From PV Require Import Base.PyData Base.Expr Base.Interp C19.Model C19.Spec C19.Penalty C19.Summary C19.Categorize C19.Stats C19.Refuted.
 Import ListNotations.
 Local Open Scope nat_scope.
 
@@ -135,10 +135,10 @@ Proof. split; vm_compute; reflexivity. Qed.
 Example summary_example :
   match summarize_step 1%positive
           (mkSres None (Some 9%Q) (Some [(1, Some 5%Q); (1, Some 4%Q); (2, Some 3%Q); (2, Some (5 # 2))]) [] None None None
-                  [true; false] [false; true] 1 2) None with
-  | Ok row => (sr_minsucc row, sr_ofv row, sr_nerr row, sr_nwarn row)
-  | Err _ => (true, None, 0, 0)
-  end = (false, Some (5 # 2)%Q, 1, 2).
+                  [true; false] [false; true] 1 2 (Some 9%Q) (Some [Some 1%Q; Some (7 # 2)%Q])) None with
+  | Ok row => (sr_minsucc row, sr_ofv row, sr_nerr row, sr_nwarn row, sr_est_runtime row)
+  | Err _ => (true, None, 0, 0, None)
+  end = (false, Some (5 # 2)%Q, 1, 2, Some (7 # 2)%Q).
 Proof. vm_compute. reflexivity. Qed.
 
 (* _categorize_parameters: CL = TH1*exp(ETA1), V = TH2 + TH3*ETA2, Y = F + F*EPS; ETA2's omega (8) is fixed to 0.
@@ -160,3 +160,32 @@ Example categorize_example :
   is_zero_dist cat_zero (mkRvd true [12%positive] [8%positive]) = true /\
   cat_nfix cat_zero = 2 /\ cat_nrand cat_zero = 2.
 Proof. repeat split; vm_compute; reflexivity. Qed.
+
+(* statistics model: three replicates listing A (1), B (2) in different orders, one lacks B and has an extra label;
+   the stacked column of B skips the NaN; quad is sum_a sum_b x_a M_ab x_b *)
+Definition st_reps : list series :=
+  [[(1%positive, Some 1%Q); (2%positive, Some 2%Q)]; [(2%positive, Some 4%Q); (1%positive, Some 3%Q)];
+   [(3%positive, Some 9%Q); (1%positive, Some 5%Q)]].
+Example stats_example :
+  boot_cols st_reps = [1%positive; 2%positive] /\
+  column 1 (boot_table st_reps) = [Some 2%Q; Some 4%Q; None] /\
+  Qeq_bool (match bs_mean (boot_stat idq st_reps None 1) with Some m => m | None => 0 end) 3 = true /\
+  Qeq_bool (match bs_stderr (boot_stat idq st_reps None 0) with Some v => v | None => 0 end) 4 = true /\
+  Qeq_bool (quad [1; 2] [[2; 1]; [1; 3]])%Q 18 = true /\
+  Qeq_bool (jackknife [[1; 2]; [3; 6]]%Q 0 1) 2 = true.
+Proof. repeat split; vm_compute; reflexivity. Qed.
+
+(* summarize_errors: two models, rows sorted by (model, category, position in the log) *)
+Example summarize_errors_example :
+  map (fun r => (er_model r, cat_nat (er_cat r), er_no r))
+      (summarize_errors [(2%positive, Some [(LWarning, 7%positive); (LError, 8%positive)]); (1%positive, None);
+                         (3%positive, Some [(LError, 9%positive)])])
+  = [(2%positive, 0, 1); (2%positive, 1, 0); (3%positive, 0, 0)].
+Proof. vm_compute. reflexivity. Qed.
+
+(* MFL penalty counts: search space ABSORPTION([FO,ZO,SEQ-ZO-FO]);ELIMINATION([FO,MM,MIX-FO-MM]);LAGTIME([OFF,ON]);
+   TRANSITS([0,1,3], any depot);PERIPHERALS(0..2), candidate SEQ-ZO-FO / MM / 3 transits with depot / 1 peripheral / lag ON *)
+Example mfl_counts_example :
+  mfl_counts (mkMfl (Some ([AB_FO; AB_ZO; AB_SEQ], AB_SEQ)) (Some ([EL_MIX; EL_FO; EL_MM], EL_MM))
+                    (Some (6, true, [0; 1; 3]%Z, true, 3%Z)) (Some (3, 1%Z)) (Some (2, true))) = Ok (8, 5)%Z.
+Proof. vm_compute. reflexivity. Qed.
